@@ -56,15 +56,21 @@ def gen(ctx, cfg, workers=8, simulate=None, timeout=900, mc=True):
 
 
 def run(ctx):
+    import time
+    t0 = time.time()
+
+    def lap(what):
+        vf.log("C07 %s at %.0fs" % (what, time.time() - t0))
     rnd = random.Random(ctx.seed)
     # 1. design level + generation: the same TLC runs check the invariants and emit the merges they explore
     groups = {}
     groups["3way"] = gen(ctx, ctx.q("MC_Tree", "MC_Tree_thorough"), timeout=ctx.q(400, 1500))
     groups["5way"] = gen(ctx, "MC_Tree_5way", timeout=ctx.q(400, 1500))
-    groups["slots"] = gen(ctx, "MC_Tree_slots")
+    groups["slots"] = gen(ctx, ctx.q("MC_Tree_slots", "MC_Tree_slots_thorough"))
     if ctx.thorough:
         groups["5way_y"] = gen(ctx, "MC_Tree_5way_y", timeout=1500)
     groups["sim"] = gen(ctx, "MC_Tree_sim", simulate="num=%d" % ctx.q(60, 400), timeout=900)
+    lap("generated")
     # negative configs: the contract clauses can fail, and the known finding exists at design level
     negs = [("finding", "InvContract"), ("flag", "InvContract"), ("side", "InvContract"),
             ("subdir", "InvContract"), ("paths", "InvContract")]
@@ -76,6 +82,7 @@ def run(ctx):
         for b in ex.map(neg, negs):
             ctx.cov["tlc_runs"].append({"run": "negative:" + b, "outcome": "fails as required (InvContract)"})
 
+    lap("negatives")
     # 2. what is bound to the real code
     bound = []
     exhaustive = []
@@ -85,7 +92,7 @@ def run(ctx):
             exhaustive.append("%s=%d" % (name, len(cases)))
             bound += cases
         else:
-            k = min(len(cases), ctx.q(3000, 20000))
+            k = min(len(cases), ctx.q(2000, 20000))
             small = [c for c in cases if len(c["mm"]) < 5]
             big = [c for c in cases if len(c["mm"]) >= 5]
             bound += small + rnd.sample(big, min(len(big), k))
@@ -95,8 +102,9 @@ def run(ctx):
             f.write(json.dumps(c) + "\n")
     trace = ctx.path("c07.ndjson")
     ctx.harness("tree", ["merge", "--cases", casefile, "--out", trace, "--backend", "test",
-                         "--random", ctx.q(1500, 10000), "--seed", ctx.seed], timeout=2400)
+                         "--keep-every", ctx.q(3, 1), "--random", ctx.q(1500, 10000), "--seed", ctx.seed], timeout=2400)
     traces = [trace]
+    lap("harness")
     if ctx.thorough:
         # the Git backend has concurrency 1: the TreeMerger's unstarted-work queue is exercised
         sub = ctx.path("c07-cases-git.ndjson")
@@ -119,6 +127,7 @@ def run(ctx):
                 n_known += 1
                 if n_known <= 2:
                     ctx.sample({"known_finding": verdict, "record": j["records"][idx]}, 6)
+    lap("judged")
     ctx.cov["exhaustive"] = True
     ctx.cov["exhaustive_domain"] = ("bound exhaustively to the real code: " + ", ".join(exhaustive) +
                                     "; sampled: 5/7-way, already-conflicted inputs, seeded random merges over the full value alphabet")
